@@ -195,7 +195,7 @@ class Mono:
             return bool(ds) and all(isinstance(d, ast.Assign) and self.nonneg(d.value) for d in ds)
         if _is_square(e):
             return True
-        if isinstance(e, ast.BinOp) and isinstance(e.op, (ast.Add, ast.Mult)):
+        if isinstance(e, ast.BinOp) and isinstance(e.op, (ast.Add, ast.Mult, ast.Div)):
             return self.nonneg(e.left) and self.nonneg(e.right)
         if isinstance(e, ast.BinOp) and isinstance(e.op, ast.Pow):
             return self.nonneg(e.left)
@@ -264,6 +264,14 @@ class Mono:
                     return CONST
                 if b == CONST and self.nonneg(e.right):
                     return a
+                # lemma: T / (S + T) with T up >= 0, S const >= 0 is up (the quotient form of the ratio lemma)
+                t = _strip_cast(self._resolve(e.left))
+                terms = _sum_terms(_strip_cast(self._resolve(e.right)))
+                tn = norm(t)
+                rest = [x for x in terms if norm(_strip_cast(x)) != tn]
+                if len(rest) == len(terms) - 1 and self.of(t, depth + 1) == UP and self.nonneg(t) and \
+                        all(self.of(x, depth + 1) == CONST and self.nonneg(x) for x in rest):
+                    return UP
                 return UNK
             return UNK
         if isinstance(e, ast.UnaryOp) and isinstance(e.op, ast.USub):
@@ -398,7 +406,8 @@ def mono_rules(chk, fn, q):
         # breaks that leave this loop (directly in its body, under ifs; not inside inner loops)
         for iff in _direct_ifs(lp.body):
             if any(isinstance(s, ast.Break) for s in iff.body):
-                t = iff.test
+              # every disjunct of an `or` leaves the loop on its own and has to justify that on its own
+              for t in (list(iff.test.values) if isinstance(iff.test, ast.BoolOp) and isinstance(iff.test.op, ast.Or) else [iff.test]):
                 key = f'break of loop {lp.target.id} on {unparse(t)}'
                 if isinstance(t, ast.Compare) and isinstance(t.ops[0], (ast.GtE, ast.Gt)):
                     k = m.of(t.left)
@@ -512,16 +521,48 @@ def guards(chk, fn, q):
                 continue
             v = defs[0].value
             casts = [x for x in ast.walk(v) if isinstance(x, ast.Call) and (
-                (isinstance(x.func, ast.Attribute) and x.func.attr == 'astype') or dotted(x.func) in ('dtype', 'np.float32', 'np.float16', 'np.single'))]
+                (isinstance(x.func, ast.Attribute) and x.func.attr == 'astype' and [unparse(a_) for a_ in x.args] not in (['np.float64'], ['float'], ["'f8'"], ['np.double']))
+                or dotted(x.func) in ('dtype', 'np.float32', 'np.float16', 'np.single'))]
             outer = isinstance(v, ast.Call) and ((isinstance(v.func, ast.Attribute) and v.func.attr == 'astype') or dotted(v.func) in ('dtype', 'np.asarray', 'np.array'))
             inner = [c for c in casts if c is not v]
-            exact_side = not E.startswith('muedges')       # |k|^2, k_perp^2, k_par^2 in mode units are exact integers; mu^2 is a rounded quotient anyway
+            # |k|^2, k_perp^2, k_par^2 in mode units are exact integers.  mu^2 is a quotient of two exact integers: it was first exempted here
+            # ("a rounded quotient anyway"), but in float32 the quotient and the squared edge are each rounded at ~6e-8 and modes within that
+            # distance of an edge are filed on the wrong side of it (F43: nmesh=256, 67 mu bins, 16 modes); both stay in float64
+            exact_side = True
             chk.check(not inner and not (exact_side and casts), 'C08-R3', PS, q, f'{E} is computed in double precision' + (' and kept in it' if exact_side else ' and rounded once'), unparse(v)[:70],
                       (f'{E} = {unparse(v)[:80]}: the operands are rounded to the working precision ({unparse(inner[0])[:40]}) before the arithmetic, '
                        'so an edge that coincides with a mode (m*dk) misses m^2 by an ulp and every mode on that edge moves to the neighbouring bin' if inner else
                        f'{E} = {unparse(v)[:80]}: the squared edge is rounded to the working precision (float32) while the squared mode number it is compared with is an exact integer: '
                        'an edge whose square lies just below an integer N is rounded up to N and the whole shell |k|^2 = N goes one bin too low '
                        '(calc_power defaults, nmesh=256, kbins=65: 1344 modes)'), node=defs[0], nontrivial=False)
+        # the value searched in the mu edges is a quotient of two exact integers: it is formed in double precision as well (no operand
+        # or intermediate narrowed to the working dtype), for the same reason as the squared edges
+        for (w, E, X) in cur['loops']:
+            if not E.startswith('muedges'):
+                continue
+            xname = unparse(w.test.left)
+            xdefs = [n_ for n_ in walk_no_nested(fn) if isinstance(n_, ast.Assign) and len(n_.targets) == 1 and unparse(n_.targets[0]) == xname]
+            ldefs_ = {}
+            for n_ in walk_no_nested(fn):
+                if isinstance(n_, ast.Assign) and len(n_.targets) == 1 and isinstance(n_.targets[0], ast.Name):
+                    ldefs_.setdefault(n_.targets[0].id, []).append(n_.value)
+            narrow_ = []
+            for d_ in xdefs:
+                todo, seen_ = [d_.value], set()
+                while todo:
+                    e_ = todo.pop()
+                    for x_ in ast.walk(e_):
+                        if isinstance(x_, ast.Call) and (dotted(x_.func) in ('dtype', 'np.float32', 'np.float16', 'np.single') or
+                                                         (isinstance(x_.func, ast.Attribute) and x_.func.attr == 'astype' and [unparse(a_) for a_ in x_.args] == ['dtype'])):
+                            if not (len(x_.args) == 1 and isinstance(x_.args[0], ast.Constant)):
+                                narrow_.append(unparse(x_)[:40])
+                        if isinstance(x_, ast.Name) and x_.id not in seen_ and x_.id != xname and len(ldefs_.get(x_.id, [])) == 1:
+                            seen_.add(x_.id)
+                            todo.append(ldefs_[x_.id][0])
+            chk.check(bool(xdefs) and not narrow_, 'C08-R3', PS, q, f'{xname} (searched in {E}) is formed in double precision', f'{len(xdefs)} definition(s)',
+                      f'{xname} is computed through {narrow_[:2]}: the quotient is rounded to the working precision (float32, ~6e-8) before it is compared with the edges, '
+                      'so a mode within that distance of a mu edge is filed in the neighbouring wedge (nmesh=256, 67 mu bins: 16 modes of the shell (56,44,53))',
+                      node=xdefs[0] if xdefs else w, nontrivial=False)
         if not cur['ok']:
             chk.refuted('C08-R3', PS, q, f'cursor {b}', f'{b} is modified outside its search loops / initialisation to 0', node=fn)
     if n == 0:
